@@ -107,6 +107,8 @@ ObsWr(e) ==
        new == Tags({
           << ~o.pend, "C07" >>,
           << o.pend /\ ~(lenok /\ d.ok /\ Mirrors(r.hdr, w)), "C06" >>,
+          \* the reply is obfuscated with the connection's secret: the key of the secret configuration the address is bound to
+          << o.pend /\ lenok /\ ~ClearFlag(w.fl) /\ CfgKeyOf(r.c) # <<>> /\ e.sk # CfgKeyOf(r.c), "C03" >>,
           << o.pend /\ o.wr >= 1, "C07" >>,
           \* C10 soundness and completeness (requests that parse under two layouts are left open)
           << o.pend /\ kind = "AuthenReply" /\ status = 1 /\ ~amb /\ ~may, "C10" >>,
@@ -129,7 +131,8 @@ ObsWr(e) ==
       THEN \* written by the reader, not by a handler: the key-mismatch error packet (its form is judged by C19 in the
            \* server family; here: it must not answer a request that is well-formed under the connection's secret)
            [o EXCEPT !.wr = @ + 1, !.reps = Put(@, key, Append(Get(@, key, <<>>), b)),
-                     !.bad = @ \cup Tags({ << C19ReaderErr(r), "C19" >> })]
+                     \* ... (C03: a request obfuscated with the connection's secret was not recovered by the server)
+                     !.bad = @ \cup Tags({ << C19ReaderErr(r), "C19" >>, << C19ReaderErr(r), "C03" >> })]
       ELSE [o EXCEPT !.wr = @ + 1, !.bad = @ \cup new,
                 !.acctpend = (o.pend /\ kind = "AcctReply" /\ status = 1 /\ Len(o.sinks) = 0),
                 !.acctb = r.b,
@@ -232,7 +235,9 @@ Next ==
              /\ LET new == Tags({ << ~o.pend \/ o.inv >= 1, "C07" >>,
                                   << o.pend /\ ScopeIdx(e.c) = 0, "C13" >>,
                                   << o.pend /\ e.b # o.req.b, "C03" >>,
-                                  << o.pend /\ C19Delivered(o.req), "C19" >> })
+                                  << o.pend /\ C19Delivered(o.req), "C19" >>,
+                                  \* what the handler is given is what the client obfuscated with the connection's secret
+                                  << o.pend /\ ~ClearFlag(o.req.hdr.fl) /\ CfgKeyOf(o.req.c) # <<>> /\ o.req.ck = CfgKeyOf(o.req.c) /\ e.b # o.req.cb, "C03" >> })
                 IN o' = Quiet([o EXCEPT !.inv = @ + 1, !.bad = @ \cup new]) /\ Report(Quiet([o EXCEPT !.bad = @ \cup new]).bad \ o.bad, e)
              /\ UNCHANGED << sc, cfg, conns, ms, div >>
         [] e.e = "overlap" ->
